@@ -362,8 +362,14 @@ func c12Assert(p *core.Prog, ta *ssa.TypeAssert, table map[int64]string) (bool, 
 					if !good {
 						okAll = false
 					}
+				case a.Op == "const":
+					// "not found" (-1): never used as an index (index safety, T2)
 				default:
-					okAll = false
+					// reached only where this very element was tested: the value flows
+					// in (through φ-nodes) from a block guarded by X[a].Type == K
+					if !c12GuardedIndex(p, idx.Args[1].Val, a, table, asserted) {
+						okAll = false
+					}
 				}
 			}
 			if okAll && n > 0 {
@@ -396,3 +402,37 @@ func rrTypeCode(p *core.Prog, name string) (int64, bool) {
 }
 
 var _ = token.ADD
+
+// c12GuardedIndex: alternative alt of the index value v enters v's φ-nodes
+// along an edge whose source is guarded by <slice>[alt].Type == K, with K a
+// type code that carries the asserted Go type.
+func c12GuardedIndex(p *core.Prog, v ssa.Value, alt *core.Expr, table map[int64]string, asserted string) bool {
+	ok := false
+	seen := map[ssa.Value]bool{}
+	var visit func(v ssa.Value, depth int)
+	visit = func(v ssa.Value, depth int) {
+		ph, isPhi := v.(*ssa.Phi)
+		if !isPhi || seen[v] || depth > 4 {
+			return
+		}
+		seen[v] = true
+		for i, e := range ph.Edges {
+			if p.X(e).String() == alt.String() {
+				for _, f := range p.Facts(ph.Block().Preds[i]) {
+					if f.Op != "==" || f.L.Op != "field" || f.L.Name != "Type" || f.L.Args[0].Op != "index" {
+						continue
+					}
+					if f.L.Args[0].Args[1].String() != alt.String() {
+						continue
+					}
+					if k, isC := f.R.ConstInt(); isC && table[k] == asserted {
+						ok = true
+					}
+				}
+			}
+			visit(e, depth+1)
+		}
+	}
+	visit(v, 0)
+	return ok
+}
